@@ -1,4 +1,5 @@
 import RsMatterVerif.Lemmas.BtpHandshake
+import RsMatterVerif.Lemmas.BtpRing
 /-!
 # C18 — BTP delivers each message intact, once and in order, or fails cleanly
 
@@ -408,6 +409,43 @@ segment travels, `b` fetches exactly what was submitted. -/
 example : ((runLink (freshLink false true (some 100) (some 64))
     ([.send .a [9, 8, 7]] ++ handshakeOps ++ [.poll .a, .deliver .b, .fetch .b 2048])).b.fetched) =
     [([9, 8, 7], 2048)] := by decide
+
+/-! ## The ring buffer: the real index arithmetic refines the byte queue of the session model -/
+
+/-- **`RingBuf<N>` (model of the real `start` / `end` / `non_empty` arithmetic of
+`utils/storage/ringbuf.rs`, `Model/BtpRing.lean`) refines the bounded byte FIFO**: for every
+capacity `N > 0` and every sequence of `push` (any length, dropping the oldest bytes on overflow) /
+`pop` / `push_byte` / `pop_byte` / `clear`, the bytes handed out and `len`, `free`, `is_full`,
+`is_empty` are those of the byte queue, however often the indices wrap. -/
+theorem ringbuf_refines_queue (n : Nat) (hn : 0 < n) (ops : List RingOp) :
+    Ring.run (Ring.new n) ops = Ring.qRun n [] ops :=
+  Ring.ring_refines_queue n hn ops
+
+/-- the byte-list ring of the session model (`Model/Btp.lean`) *is* that byte queue with
+`N = MAX_MESSAGE_SIZE` … -/
+theorem session_ring_is_queue (buf data : List Nat) :
+    ringPush buf data = qPush maxMessageSize buf data ∧ ringFree buf = maxMessageSize - buf.length :=
+  ⟨rfl, rfl⟩
+
+/-- … so a real `RingBuf<MAX_MESSAGE_SIZE>` that represents the session's byte list `buf` behaves
+exactly as the session model assumes: `push` gives `ringPush`, `free()` gives `ringFree`, `pop(k)`
+hands out `buf.take k` and leaves `buf.drop k` (the two length bytes, the payload and the skipped
+rest of `RecvWindow::fetch_message` are such pops). -/
+theorem session_ring_ops (r : Ring) (buf : List Nat) (h : Ring.Rep maxMessageSize r buf) (data : List Nat) (k : Nat) :
+    Ring.Rep maxMessageSize (r.push data) (ringPush buf data) ∧
+    r.free = ringFree buf ∧
+    (r.pop k).2 = buf.take k ∧ Ring.Rep maxMessageSize (r.pop k).1 (buf.drop k) := by
+  obtain ⟨hi, hn, hq⟩ := h
+  obtain ⟨a, b, c⟩ := Ring.push_spec hi data
+  obtain ⟨d, e, f, g⟩ := Ring.pop_spec hi k
+  refine ⟨⟨a, b.trans hn, by rw [c, hn, hq]; rfl⟩, ?_, by rw [f, hq], ⟨d, e.trans hn, by rw [g, hq]⟩⟩
+  unfold Ring.free ringFree
+  rw [hn, ← hq, Ring.contents_length]
+
+/-- Non-vacuity / a wrap-around sample: capacity 4, push 3, pop 2, push 3 (wraps), pop 4. -/
+example : Ring.run (Ring.new 4) [.push [1, 2, 3], .pop 2, .push [4, 5, 6], .pop 4] =
+    [⟨[], 3, 1, false, false⟩, ⟨[1, 2], 1, 3, false, false⟩, ⟨[], 4, 0, true, false⟩,
+     ⟨[3, 4, 5, 6], 0, 4, false, true⟩] := by decide
 
 /-! ## The full statement -/
 
